@@ -68,11 +68,17 @@ func ruleCueNumbering(names ...string) func(p *Prog, l *Ledger, tier string) {
 				}
 				for _, ins := range b.Instrs {
 					c, ok := ins.(*ssa.Call)
-					if !ok || calleeName(&c.Call) != "strconv.Itoa" {
+					if !ok {
+						continue
+					}
+					// the integer rendered: strconv.Itoa(n), strconv.FormatInt(n, 10), strconv.AppendInt(buf, n, 10)
+					argIdx := map[string]int{"strconv.Itoa": 0, "strconv.FormatInt": 0, "strconv.AppendInt": 1}
+					k, isRender := argIdx[calleeName(&c.Call)]
+					if !isRender || k >= len(c.Call.Args) {
 						continue
 					}
 					or := strset{}
-					intOrigins(c.Call.Args[0], map[ssa.Value]bool{}, or)
+					intOrigins(c.Call.Args[k], map[ssa.Value]bool{}, or)
 					if !or["range-index"] && !or["Item.Index"] {
 						continue // some other number (region lines, …)
 					}
